@@ -1,6 +1,7 @@
 package main
 
 import (
+	"encoding/json"
 	"fmt"
 	"math/rand"
 	"strings"
@@ -63,7 +64,7 @@ func (rcScenario) Build(cfg string) ([]func(), func(*vsched.Sched) []string) {
 	var rb *faststats.RollingBuckets
 	_ = rb
 	progs := strings.Split(cfgStr(cfg, "ops"), "/")
-	incs, maxB, resets, incBuckets := 0, 0, 0, []int{}
+	incs, maxB, resets, incBuckets, validReqs := 0, 0, 0, []int{}, 0
 	var bodies []func()
 	for _, p := range progs {
 		type step struct {
@@ -76,6 +77,7 @@ func (rcScenario) Build(cfg string) ([]func(), func(*vsched.Sched) []string) {
 			var b int
 			fmt.Sscanf(o, "%c@%d", &op, &b)
 			steps = append(steps, step{op, b})
+			validReqs++
 			if b > maxB {
 				maxB = b
 			}
@@ -107,6 +109,13 @@ func (rcScenario) Build(cfg string) ([]func(), func(*vsched.Sched) []string) {
 		var problems []string
 		if got := ctr.TotalSum(); got != int64(incs) {
 			problems = append(problems, fmt.Sprintf("TotalSum=%d after %d Inc calls", got, incs))
+		}
+		// newest index of the ring, read through the JSON encoding (which does not move the window)
+		if b, err := json.Marshal(&ctr); err == nil {
+			var m struct{ RollingBucket struct{ LastAbsIndex int64 } }
+			if json.Unmarshal(b, &m) == nil && validReqs > 0 && m.RollingBucket.LastAbsIndex != int64(maxB) {
+				problems = append(problems, fmt.Sprintf("newest index %d after all operations returned, largest index requested %d", m.RollingBucket.LastAbsIndex, maxB))
+			}
 		}
 		// read the quiescent state WITHOUT moving the window: newest index is maxB, present exactly that time
 		tq := start.Add(time.Duration(maxB)*width + width/2)
